@@ -38,6 +38,13 @@ Theorem C05_vote_no_error : forall mm child, expr_vote mm false false child = ch
 Proof. exact no_error_votes_child. Qed.
 Print Assumptions C05_vote_no_error.
 
+(** ... unless validation-mode says match: a component whose evaluation raised then votes yes, and one whose
+    children only recorded an error votes what its children answered *)
+Theorem C05_vote_match_mode : forall pending child,
+  expr_vote true true pending child = true /\ expr_vote true false pending child = child.
+Proof. intros pending child. unfold expr_vote. destruct pending, child; split; reflexivity. Qed.
+Print Assumptions C05_vote_match_mode.
+
 (** D5 (fixed in /repo): with the switch on, a policy containing 'quiet' crashes before any effect *)
 Theorem C05_quiet_refuted :
   handle true (mkPol false true false false false true) (mkVm None None None None None) (mkHs [] false true []) 2
